@@ -114,6 +114,8 @@ type mvEnv struct {
 	cctx       *consensus.Context
 	ver        verifier.Verifier
 	seenDelegs map[string]bool
+	// sched: the schedule of a tick as first computed (by a cold instance); every later computation must give the same list
+	sched map[uint64]string
 }
 
 func (e *mvEnv) frontier() *nom.Momentum {
@@ -529,13 +531,23 @@ func (e *mvEnv) round(gapSlots int64) {
 	// ---- schedule determinism: cached instance vs a cold instance, for every slot of this and the next tick
 	cold := consensus.NewConsensus(db.NewMemDB(), ch, true)
 	tick := e.cctx.ToTick(time.Unix(tsec, 0))
-	for _, tk := range []uint64{tick, tick + 1} {
+	ticks := []uint64{tick, tick + 1}
+	if tick > 0 {
+		ticks = append(ticks, tick-1)
+	}
+	for _, tk := range ticks {
 		s, _ := e.cctx.ToTime(tk)
 		seenProd := map[types.Address]int{}
+		var list []string
 		for i := 0; i < int(e.cctx.NodeCount); i++ {
 			t := s.Add(time.Duration(int64(i)*bt) * time.Second)
 			a, err1 := e.z.Consensus().GetMomentumProducer(t)
 			b, err2 := cold.GetMomentumProducer(t)
+			if err2 == nil {
+				list = append(list, addrName(*b))
+			} else {
+				list = append(list, "none")
+			}
 			c.Hit("slot-compared")
 			if (err1 == nil) != (err2 == nil) || (err1 == nil && *a != *b) {
 				c.Fail("schedule: tick %d slot %d: cached instance elects %v (err %v), a cold instance %v (err %v)", tk, i, a, err1, b, err2)
@@ -549,6 +561,20 @@ func (e *mvEnv) round(gapSlots int64) {
 			// an instant inside the slot has no producer
 			if _, err := e.z.Consensus().GetMomentumProducer(t.Add(time.Second)); err == nil {
 				c.Fail("schedule: GetMomentumProducer answers for %d which is not a slot start", t.Unix()+1)
+			}
+		}
+		// the schedule of a tick is a function of the ledger as of its proof momentum (final once the tick before it has
+		// begun): computed now, on a cold instance, it is the list computed when the frontier was further back
+		if e.sched == nil {
+			e.sched = map[uint64]string{}
+		}
+		now := strings.Join(list, ",")
+		if was, ok := e.sched[tk]; !ok {
+			e.sched[tk] = now
+		} else {
+			c.Hit("schedule-recomputed-later")
+			if was != now {
+				c.Fail("schedule: tick %d was computed as [%s] when the frontier was at an earlier momentum, and is [%s] on a cold instance with the frontier at height %d (timestamp %d): not a function of the proof momentum", tk, was, now, prev.Height, prev.TimestampUnix)
 			}
 		}
 	}
@@ -688,6 +714,15 @@ func init() {
 				gap = int64(3 + c.R.Intn(5))
 			case 2:
 				gap = int64(e.cctx.NodeCount) + int64(c.R.Intn(40)) // skips at least one whole tick
+			case 3, 4:
+				// land exactly on the first slot of the next tick (the instant that is the proof time of the tick after it):
+				// the following rounds compute that tick's schedule while the frontier sits on its proof time
+				f := e.frontier()
+				start, _ := e.cctx.ToTime(e.cctx.ToTick(time.Unix(int64(f.TimestampUnix), 0)) + 1)
+				if k := (start.Unix() - int64(f.TimestampUnix)) / e.cctx.BlockTime; k >= 1 {
+					gap = k
+					c.Hit("gap-to-tick-start")
+				}
 			}
 			c.Hit(fmt.Sprintf("gap-%d", func() int64 {
 				if gap > 3 {
